@@ -2,7 +2,7 @@
    serialization: structural equality is equality, the encoder writes the documented bytes,
    the decoder reads them back exactly (design/WIRE_THEOREMS.md, section ReflProofs.v). *)
 From Coq Require Import ZifyN ZifyNat ZifyBool.
-From QV Require Import Wire WireLemmas.
+From QV Require Import Wire WireLemmas WireProofs.
 Local Open Scope N_scope.
 
 (* ---------- structural equality ---------- *)
@@ -202,3 +202,178 @@ Section P.
 
   Lemma map_of_nodup : forall kvs, NoDup (map fst kvs) -> map_of tval_eqb kvs = kvs.
   Proof. intros kvs Hnd. unfold map_of. now rewrite map_of_acc_nodup. Qed.
+
+  (* ---------- typing read from the type side ---------- *)
+  Lemma has_ty_TList_inv : forall v t', has_ty v (TList t') = true ->
+    exists l, v = VList l /\ N.of_nat (List.length l) < 2 ^ 31 /\ Forall (fun x => has_ty x t' = true) l.
+  Proof.
+    intros v t' H. destruct v as [w b|b|s|l|kvs|l|t0 v0]; try discriminate H; try (destruct l; discriminate H).
+    apply has_ty_VList in H as [t1 [Et [Hlen Hall]]]. injection Et as <-. exists l. auto.
+  Qed.
+
+  Lemma has_ty_TMap_inv : forall v tk tv, has_ty v (TMap tk tv) = true ->
+    exists kvs, v = VMap kvs /\ N.of_nat (List.length kvs) < 2 ^ 31 /\
+      Forall (fun kv => has_ty (fst kv) tk = true /\ has_ty (snd kv) tv = true) kvs.
+  Proof.
+    intros v tk tv H. destruct v as [w b|b|s|l|kvs|l|t0 v0]; try discriminate H; try (destruct l; discriminate H).
+    apply has_ty_VMap in H as [tk1 [tv1 [Et [Hlen Hall]]]]. injection Et as <- <-. exists kvs. auto.
+  Qed.
+
+  Lemma has_ty_TTuple_inv : forall v ts, has_ty v (TTuple ts) = true ->
+    exists l, v = VTup l /\ Forall2 (fun x t => has_ty x t = true) l ts.
+  Proof.
+    intros v ts H. destruct v as [w b|b|s|l|kvs|l|t0 v0]; try discriminate H.
+    exists l. split; [reflexivity|]. now apply has_ty_tuple_iff.
+  Qed.
+
+  Lemma has_ty_TStruct_inv : forall v n fs, has_ty v (TStruct n fs) = true ->
+    exists l, v = VTup l /\ Forall2 (fun x f => has_ty x (snd f) = true) l fs.
+  Proof.
+    intros v n fs H. destruct v as [w b|b|s|l|kvs|l|t0 v0]; try discriminate H.
+    exists l. split; [reflexivity|]. now apply (has_ty_struct_iff n).
+  Qed.
+
+  Lemma Forall2_flip_map {A B C} (R : A -> B -> Prop) (S : C -> A -> Prop) (g : B -> C) (l : list A) (ts : list B) :
+    Forall2 R l ts -> (forall x t, In x l -> In t ts -> R x t -> S (g t) x) -> Forall2 S (map g ts) l.
+  Proof.
+    intro H. induction H as [|x t l ts Hxt Hr IH]; intro Hs; [constructor|].
+    cbn [map]. constructor.
+    - apply Hs; [now left|now left|exact Hxt].
+    - apply IH. intros y u Hy Hu. apply Hs; now right.
+  Qed.
+
+  Lemma as_int32_small : forall n, n <= listValueMaxSize ->
+    (Z.of_N listValueMaxSize <? as_int32 n)%Z = false /\ (as_int32 n <? 0)%Z = false.
+  Proof.
+    intros n Hn. unfold as_int32, listValueMaxSize in *.
+    replace (n <? 2 ^ 31) with true by (symmetry; apply N.ltb_lt; lia).
+    split; apply Z.ltb_ge; lia.
+  Qed.
+
+  (* no object reference anywhere in the type *)
+  Fixpoint noobj (t : ty) : bool :=
+    match t with
+    | TS SObject => false
+    | TS _ => true
+    | TList t' => noobj t'
+    | TMap k v => noobj k && noobj v
+    | TTuple ts => forallb noobj ts
+    | TStruct _ fs => forallb (fun f => noobj (snd f)) fs
+    end.
+
+  (* ---------- the decoder reads a valid encoding back, exactly ---------- *)
+  Section Body.
+    Variable obj : bytes -> res (tval * bytes).
+    Variable Q : Prop.
+    Hypothesis Hd8 : refl_drop8 c = false.
+    Hypothesis Hobj : Q -> forall v, has_ty v ty_ObjectReference = true -> lens_ok v = true -> keys_nodup v ->
+      exact obj v (spec_enc v).
+
+    Definition body_exact (t : ty) : Prop := forall v,
+      (noobj t = true \/ Q) -> wfz t = true -> refl_domain t = true ->
+      has_ty v t = true -> lens_ok v = true -> keys_nodup v ->
+      exact (refl_body c tval_eqb obj t) v (spec_enc v).
+
+    Lemma body_exact_TS : forall s, body_exact (TS s).
+    Proof.
+      intros s v HQ Hz Hdom Hty Hlen Hkey rest.
+      destruct v as [w b|b|s0|l|kvs|l|t0 v0].
+      - apply has_ty_VNum in Hty as [s' [Es [Hw Hb]]]. injection Es as <-.
+        destruct s; cbn [scalar_width] in Hw; try discriminate Hw; injection Hw as <-;
+          cbn [refl_body spec_enc scalar_width]; rewrite ?Hd8; rewrite read_num_le by exact Hb; reflexivity.
+      - apply has_ty_VBool in Hty. injection Hty as ->. destruct b; reflexivity.
+      - apply has_ty_VStr in Hty as [Es Hs]. injection Es as ->.
+        cbn [refl_body spec_enc]. rewrite read_str_enc by exact Hs. reflexivity.
+      - apply has_ty_VList in Hty as [t1 [Et _]]. discriminate Et.
+      - apply has_ty_VMap in Hty as [tk1 [tv1 [Et _]]]. discriminate Et.
+      - pose proof Hty as Hty'.
+        apply has_ty_VTup_expand in Hty as [[ts [Et _]]|[[n [fs [Et _]]]|[Et El]]].
+        + discriminate Et.
+        + destruct s; try discriminate Et. destruct HQ as [HQ|HQ]; [discriminate HQ|].
+          cbn [refl_body]. apply (Hobj HQ); [now rewrite <- has_ty_obj|exact Hlen|exact Hkey].
+        + injection Et as ->. subst l. reflexivity.
+      - apply has_ty_VDyn in Hty as [Et _]. injection Et as ->. discriminate Hdom.
+    Qed.
+
+    Lemma body_exact_TList : forall t', body_exact t' -> body_exact (TList t').
+    Proof.
+      intros t' IH v HQ Hz Hdom Hty Hlen Hkey rest.
+      apply has_ty_TList_inv in Hty as [l [Ev [_ Hall]]]. subst v.
+      cbn [noobj] in HQ. cbn [wfz] in Hz. apply andb_true_iff in Hz as [Hmw Hz]. apply Nat.leb_le in Hmw.
+      cbn [refl_domain] in Hdom. cbn [lens_ok] in Hlen. apply andb_true_iff in Hlen as [Hn Hlen].
+      apply N.leb_le in Hn. apply keys_nodup_VList in Hkey.
+      rewrite forallb_forall in Hlen. rewrite Forall_forall in Hall, Hkey.
+      cbn [refl_body spec_enc]. rewrite <- app_assoc.
+      rewrite read_u32_enc by (unfold listValueMaxSize in Hn; lia). cbn [bind]. cbv zeta.
+      destruct (as_int32_small _ Hn) as [E1 E2]. rewrite E1, E2.
+      rewrite (rep_exact spec_enc (refl_body c tval_eqb obj t') l _ eq_refl); [reflexivity|].
+      apply Forall_forall. intros x Hx. split.
+      - apply IH; auto.
+      - pose proof (min_width_le_len x t' (Hall x Hx)) as Hmin. lia.
+    Qed.
+
+    Lemma body_exact_TMap : forall tk tv, body_exact tk -> body_exact tv -> body_exact (TMap tk tv).
+    Proof.
+      intros tk tv IHk IHv v HQ Hz Hdom Hty Hlen Hkey rest.
+      apply has_ty_TMap_inv in Hty as [kvs [Ev [_ Hall]]]. subst v.
+      assert (HQk : noobj tk = true \/ Q)
+        by (destruct HQ as [HQ|HQ]; [cbn [noobj] in HQ; apply andb_true_iff in HQ as [HQ _]; now left|now right]).
+      assert (HQv : noobj tv = true \/ Q)
+        by (destruct HQ as [HQ|HQ]; [cbn [noobj] in HQ; apply andb_true_iff in HQ as [_ HQ]; now left|now right]).
+      cbn [wfz] in Hz. apply andb_true_iff in Hz as [Hz Hzv]. apply andb_true_iff in Hz as [Hmw Hzk].
+      apply Nat.leb_le in Hmw.
+      cbn [refl_domain] in Hdom. apply andb_true_iff in Hdom as [Hdk Hdv].
+      cbn [lens_ok] in Hlen. apply andb_true_iff in Hlen as [Hn Hlen].
+      apply N.leb_le in Hn. apply keys_nodup_VMap in Hkey as [Hnd Hkey].
+      rewrite forallb_forall in Hlen. rewrite Forall_forall in Hall, Hkey.
+      cbn [refl_body spec_enc]. rewrite <- app_assoc.
+      rewrite read_u32_enc by (unfold listValueMaxSize in Hn; lia). cbn [bind]. cbv zeta.
+      destruct (as_int32_small _ Hn) as [E1 E2]. rewrite E1, E2.
+      rewrite (rep_exact (fun kv => spec_enc (fst kv) ++ spec_enc (snd kv))
+                 (pair_with (refl_body c tval_eqb obj tk) (refl_body c tval_eqb obj tv)) kvs _ eq_refl).
+      - cbn [bind]. now rewrite map_of_nodup.
+      - apply Forall_forall. intros [k x] Hkv. cbn [fst snd].
+        destruct (Hall _ Hkv) as [Htk Htv]. destruct (Hkey _ Hkv) as [Hkk Hkx]. cbn [fst snd] in Htk, Htv, Hkk, Hkx.
+        pose proof (Hlen _ Hkv) as Hl. cbn [fst snd] in Hl. apply andb_true_iff in Hl as [Hlk Hlx].
+        split.
+        + apply pair_with_exact; [apply IHk|apply IHv]; auto.
+        + pose proof (min_width_le_len k tk Htk) as Hmk. pose proof (min_width_le_len x tv Htv) as Hmx.
+          rewrite app_length. lia.
+    Qed.
+
+    Lemma body_exact_TTuple : forall ts, Forall body_exact ts -> body_exact (TTuple ts).
+    Proof.
+      intros ts IH v HQ Hz Hdom Hty Hlen Hkey rest.
+      apply has_ty_TTuple_inv in Hty as [l [Ev Hall]]. subst v.
+      cbn [wfz] in Hz. cbn [refl_domain] in Hdom. cbn [lens_ok] in Hlen. apply keys_nodup_VTup in Hkey.
+      rewrite forallb_forall in Hz, Hdom, Hlen. rewrite Forall_forall in IH, Hkey.
+      cbn [refl_body spec_enc].
+      rewrite (fields_with_exact (map (fun t' => (refl_body c tval_eqb obj t', zero_val t')) ts) l); [reflexivity|].
+      apply (Forall2_flip_map (fun x t => has_ty x t = true)); [exact Hall|].
+      intros x t Hx Ht Hxt. cbn [fst]. apply (IH t Ht); auto.
+      destruct HQ as [HQ|HQ]; [left|now right]. cbn [noobj] in HQ. rewrite forallb_forall in HQ. now apply HQ.
+    Qed.
+
+    Lemma body_exact_TStruct : forall n fs, Forall (fun f => body_exact (snd f)) fs -> body_exact (TStruct n fs).
+    Proof.
+      intros n fs IH v HQ Hz Hdom Hty Hlen Hkey rest.
+      apply has_ty_TStruct_inv in Hty as [l [Ev Hall]]. subst v.
+      cbn [wfz] in Hz. cbn [refl_domain] in Hdom. cbn [lens_ok] in Hlen. apply keys_nodup_VTup in Hkey.
+      rewrite forallb_forall in Hz, Hdom, Hlen. rewrite Forall_forall in IH, Hkey.
+      cbn [refl_body spec_enc].
+      rewrite (fields_with_exact (map (fun f => (refl_body c tval_eqb obj (snd f), zero_val (snd f))) fs) l); [reflexivity|].
+      apply (Forall2_flip_map (fun x f => has_ty x (snd f) = true)); [exact Hall|].
+      intros x f Hx Hf Hxf. cbn [fst]. apply (IH f Hf); auto.
+      destruct HQ as [HQ|HQ]; [left|now right]. cbn [noobj] in HQ. rewrite forallb_forall in HQ. now apply HQ.
+    Qed.
+
+    Lemma refl_body_exact : forall t, body_exact t.
+    Proof.
+      induction t as [s|t' IHt|k v IHk IHv|ts IHts|n fs IHfs] using ty_ind2.
+      - apply body_exact_TS.
+      - now apply body_exact_TList.
+      - now apply body_exact_TMap.
+      - now apply body_exact_TTuple.
+      - now apply body_exact_TStruct.
+    Qed.
+  End Body.
